@@ -15,7 +15,7 @@ open Sq Sq.Inv
 theorem step_changes_only_scopes {Pc : List Op → Op → Nat → Prop} {Pb Pq : String → Prop} {Pr : Nat → Prop} {Po : Op → Prop} {Pn : Name → Prop}
     {Psh : Prop} (hok : OpsOK Pc Pb Po Pn Psh) (hb : ∀ n, Pb n → n ∉ mutatorNames) (hsh : ¬ Psh) (budgets : List Nat) (c : Core)
     (hc : CorePDg Pc Pb Pq Pr Po Pn Psh c) : HPres c.w (stepCore budgets c).w :=
-  (step_hp hok hb hsh budgets c hc).toHPres
+  (step_hp (M := fun _ => False) hok (pureOK_of_nonmut hb) (inplOK_of_not hsh) budgets c hc).toHStep.toHPres
 
 /-- **a program without mutators changes no host object**, at any step of its evaluation -/
 theorem quiet_program_changes_no_host_object (w : World) (bs : List Nat) (namesAddr budget : Nat) (tree : Op)
